@@ -93,33 +93,33 @@ XRUN_GRAPH = {'suite': 'graph', 'claim': 'two-pass verdict / gas / returned muta
               'post-state reads == per-key overlay (deletions, key carry, extern); computed mutations observed; cyclic / malformed graphs rejected; both values of collect_all_failures',
               'bound': 'every edge set (incl. self loops) over <= 3 nodes and every 7th over 4 nodes (thorough: all 65536), plus a multi-edge variant, two leaf encodings, a post-state reader / failing / '
                        'unsatisfied program at each node in turn; 4-key ranges x 16 mutation masks x deletion / pre-state masks x 4 start keys (carry, end of key space) x own / extern; '
-                       'computed-mutation cases incl. pushed words that look like post-read opcodes and nodes sharing a program'}
+                       'computed-mutation cases incl. pushed words that look like post-read opcodes and nodes sharing a program; declared / computed slot collisions in both orders and across three solutions in every order; sampled beyond the exhaustive scope: 6 000 (thorough 20 000) random sets of 1-3 solutions with 5-9-node graphs, 2 000 (6 000) ranges of 5-75 keys; concatenations at the stack / memory limits'}
 XRUN_COMPUTE = {'suite': 'compute', 'claim': 'Compute(n) on the real VM == sequential fork / join written from the statement of C10 (children run one after another on the real VM): child start state, '
                 'joined memory in index order, parent stack, resume position, halt, gas, and every failure condition (child error, breadth < 1, nested Compute, combined memory above the limit)',
                 'bound': '5 parent states (incl. 9941- and 10240-word memories) x 15 child bodies (index-dependent allocation / jumps / halts / errors, parent-memory reads, inherited-stack edits, nested compute) '
-                         'x breadths {1, 2, 3, 0, -1, 40} x 3 suffixes x with / without ComputeEnd'}
+                         'x breadths {1, 2, 3, 0, -1, 40} x 3 suffixes x with / without ComputeEnd; 20 child bodies and breadths up to 257 in the current suite (DESIGN 7.3)'}
 XRUN_BYTECODE = {'suite': 'bytecode', 'claim': 'BytecodeMapped (borrowed and owned) == parsed op list: success / error kind, ops(), op(i) for i <= len + 2 (None past the end, no panic), rebuild from ops; '
                  'exec_bytecode == exec_ops (result, gas, pc, stack, memory, halt, repeat) from pc 0 and from pcs at / past the end',
                  'bound': 'all byte strings of length <= 1, a fifth of length 2 (thorough: all), length 3 over 14 representative bytes, Push with every truncation; every program of <= 3 ops (thorough 4) over a 20-op palette '
-                          '(pushes, stack / alu / pred ops, JumpIf, HaltIf, Halt, Repeat, RepeatEnd, memory ops, Compute, ComputeEnd) x 3 initial stacks, gas limit 300'}
+                          '(pushes, stack / alu / pred ops, JumpIf, HaltIf, Halt, Repeat, RepeatEnd, memory ops, Compute, ComputeEnd) x 3 initial stacks, gas limit 300; 40 000 (120 000) random programs of 4-12 ops; mappings with 300 pushes / 70 000 ops / a Push after 65 600 ops, rebuilt and push_op-extended mappings'}
 XRUN_VMOPS = {'suite': 'vmops', 'claim': 'every synchronous VM operation == executable twin of the specification functions (asm.yml): whole resulting stack and memory, control flow, failure exactly when documented, '
               'stack / memory limits, no panic; state-read routing and memory layout (incl. states returning more values than asked); repeat trip counts; eval; gas sums, limits and out-of-gas before execution; SHA-256 marshalling; EqSet',
               'bound': '41 ops x all operand pairs from 17 boundary words (0, +-1.., 63, 64, 4095, 4096, i64::MIN/MAX..) x 4 stack bases x 3 memories; 3-operand ops over 8 words; range ops over all arrays of <= 3 words from {0,1,7} with '
-                       'declared lengths +-1; EqSet over sets of <= 3 items; stacks at 4091..4096 words, memory at the limit; 6 keys x 5 counts x 5 addresses x 3 memory sizes x 4 state ops; 6 cost tables x 15 gas limits'}
+                       'declared lengths +-1; EqSet over sets of <= 3 items; stacks at 4091..4096 words, memory at the limit; 6 keys x 5 counts x 5 addresses x 3 memory sizes x 4 state ops; 6 cost tables x 15 gas limits; ~40 hand-written programs (nested / re-entered / abandoned repeats, far exits, compute in loops, children stopping before the Compute op, resource limits reached by sequences, repeat-stack limit at top level and in compute children) x 4 gas limits; trip counts beyond 2^32 left in the third pass; one guarded jump from a second loop to every position (2 x 2 x 2 shapes); every ordered pair + third read of the four state reads; up to three PredicateExists per program over a set of 4 solutions; 11 cost functions (two operand-dependent) x limits around every prefix sum; per_yield in {0, 1, 7, 4095, 4096, 4097, 20 000, MAX} x 8 limits on children / loops of > 4096 gas; 150 000 (400 000) random programs of 4-12 ops; Sha256 on every byte length <= 1100 and around multiples of 64 words up to 4094 words; Ed25519 / secp256k1 incl. every recovery id on signatures with r <= 24; ParentMemory over two parent memories'}
 XRUN_VALIDATE = {'suite': 'validate', 'claim': 'check_set / predicate::check / check_contract accept exactly the documented limits and at most one mutation per (contract, key) in the whole set, in every order of the solutions',
                  'bound': 'each limit at, just below and just above (solutions 0/1/99/100/101, slots 99/100/101, value and key lengths, 999/1000/1001 mutations split over 1..3 solutions, nodes / edges / predicates); '
-                          'all pairs and a third of the triples of solutions over 2 contracts x 2 predicates x 5 key sets'}
+                          'all pairs and a third of the triples of solutions over 2 contracts x 2 predicates x 5 key sets; solutions with 63-64 declared slots; sets of 4..100 solutions with one slot written at positions i < j (every pair up to 33 solutions, every 7th beyond), same / different contracts; signed contracts with all 256 recovery ids and corrupted signatures against secp256k1'}
 XRUN_CODEC = {'suite': 'codec', 'claim': 'encode_predicate / encode_mutation(s) == documented layouts, decoders invert them, every prefix and garbage input is a typed error (no panic), encoded sizes == lengths, '
               'predicates at the 1000-node / 1000-edge limits encode, hex <-> words round-trips (negative words, either case)',
               'bound': 'predicate shapes <= 3 nodes x <= 4 edges with every prefix of the encoding, 7 garbage strings, 6 limit shapes; 36 mutation lists of <= 5 mutations (keys / values of <= 3 boundary words) with every prefix, '
-                       '13 garbage word lists; 91 word sequences of <= 2 boundary words'}
+                       '13 garbage word lists; 91 word sequences of <= 2 boundary words; well-formed predicate encodings of 1001..65535 nodes / edges (decode has no limit) and their truncations; node_edges over every node table of <= 4 nodes; hex strings of up to 100 words; serde (postcard, JSON, legacy names, Display / FromStr) round trips of sample values of every public type incl. programs of 10 000 bytes and all 256 recovery ids'}
 XRUN_HASH = {'suite': 'hash', 'claim': 'contract / solution-set / predicate / program / solution addresses equal SHA-256 of the documented pre-hash encodings '
                       '(sorted member addresses as a multiset ++ salt; documented predicate layout; program bytes), all helpers agree, encoded size == length',
                       'bound': 'address sequences of length <= 3 (thorough 4) over 6 boundary addresses x 3 salts; predicate shapes <= 9 nodes x <= 34 edges (thorough 20 x 70); '
-                               'contracts / sets of <= 3 members drawn with repetition from 3; program lengths around the SHA block size'}
+                               'contracts / sets of <= 3 members drawn with repetition from 3; program lengths around the SHA block size; 400 (3 000) random address sequences of 4-17 members, every fourth of 31..1025 members (around powers of two), through the iterator and the slice entry points'}
 XRUN_EFFECTS = {'suite': 'effects', 'claim': 'analyze(ops) == union of the effect flags of the ops; bytes_contains_any(to_bytes(ops), set) == (some op - never an immediate byte of a Push - has an effect in the set)',
                 'bound': 'every program of <= 2 ops (a third of those with 3; thorough: all) over 64 ops: the 6 effectful ops, Pop, pushes carrying every effect opcode and the Push opcode at each of the 8 immediate positions; '
-                         'all 64 effect sets for <= 2 ops, 17 sets for 3; k in {0,1,5,6,7,8,12,40} repetitions of one effectful op followed by another'}
+                         'all 64 effect sets for <= 2 ops, 17 sets for 3; k in {0,1,5,6,7,8,12,40} repetitions of one effectful op followed by another; all 720 orders of the six effectful ops; a Push carrying an effect opcode after n single-byte ops for every n <= 1100 and around 4 096 / 8 192 / 10 000 / 16 384 / 20 000 / 65 536 bytes; 1 200 Push / Pop rounds; raw byte strings of <= 3 bytes over a 10-byte alphabet and truncated pushes (no panic, same rule)'}
 XRUN_ASM = {'suite': 'asm', 'claim': 'to_bytes(seq) == concatenation of the single-op encodings, from_bytes of it == seq, parsing any byte string fails exactly at an invalid opcode / truncated immediate and '
                         'otherwise yields ops that serialise to exactly those bytes; the byte iterators give the same bytes when finished by fold / for_each / count / last / collect after k calls of next()',
             'bound': 'all ordered pairs of the 61 immediate-free ops + 9 boundary pushes; a Push at every byte offset 0..3000 of a stream (thorough 9000); runs of 260 pushes shifted by 0..8 bytes; 3000 random sequences of <= 400 ops '
@@ -136,19 +136,19 @@ PROPS = {
             'explanation': 'per-op functional contracts against spec functions written from asm.yml'},
     'C09': {'level': 'proof', 'verus_units': ['vm_core'], 'xrun': [XRUN_VMOPS], 'kani': [KANI_VM_OPS_CF],
             'explanation': 'control flow / repeat / eval contracts'},
-    'C07': {'level': 'proof', 'verus_units': ['vm_core'], 'xrun': [XRUN_VMOPS, XRUN_COMPUTE],
+    'C07': {'level': 'proof', 'verus_units': ['vm_core'], 'xrun': [XRUN_VMOPS, XRUN_COMPUTE, XRUN_GRAPH],
             'explanation': 'Vm::exec loop invariant over a ghost trace of visited pcs and child gas: exact sum, <= limit, no overflow, out-of-gas raised before step_op, termination variant for positive costs'},
     'C11': {'level': 'proof', 'verus_units': ['vm_core'], 'xrun': [XRUN_VMOPS],
             'explanation': 'state-read ops: operand popping, view/contract routing, memory layout (layout_k), frame'},
     'C12': {'level': 'proof', 'verus_units': ['vm_core'], 'xrun': [XRUN_VMOPS], 'kani': [KANI_VM_OPS_ACCESS],
             'explanation': 'access ops against spec functions; crypto marshalling assumed'},
-    'C06': {'level': 'proof', 'verus_units': ['types_core', 'check_core'], 'xrun': [XRUN_CODEC, XRUN_GRAPH, XRUN_ASM],
+    'C06': {'level': 'proof', 'verus_units': ['types_core', 'check_core'], 'xrun': [XRUN_CODEC, XRUN_GRAPH, XRUN_ASM, XRUN_EFFECTS],
             'explanation': 'decoders / validators / graph helpers carry no precondition on the untrusted argument; Verus discharges every index, slice, unwrap/expect, arithmetic obligation'},
     'C18': {'level': 'proof', 'verus_units': ['types_core'], 'kani': [KANI_TYPES_K1], 'xrun': [XRUN_CODEC],
             'explanation': 'decode_mutation(s) invert the spec encoders on every input; node_edges equals the documented sub-range; fixed-width conversions by complete Kani proofs'},
     'C16': {'level': 'proof', 'verus_units': ['check_core'], 'xrun': [XRUN_VALIDATE, XRUN_GRAPH],
             'explanation': 'validators accept exactly the documented limits (bi-implications)'},
-    'C04': {'level': 'proof', 'verus_units': ['check_core', 'hash_core'], 'xrun': [XRUN_VALIDATE, XRUN_GRAPH, XRUN_HASH],
+    'C04': {'level': 'proof', 'verus_units': ['check_core', 'hash_core'], 'xrun': [XRUN_VALIDATE, XRUN_GRAPH, XRUN_HASH, XRUN_VMOPS],
             'explanation': 'set validation verdict is a symmetric predicate of the solutions; one mutation per (contract, key) across the set'},
     'C01': {'level': 'other', 'verus_units': ['check_core'], 'xrun': [XRUN_GRAPH],
             'technique': 'contract-based deductive verification (Verus) of the graph-layer functions; the orchestration (rayon / closures) only by a bounded stand-in: xrun small-scope execution of the real two-pass entry point against the reference semantics',
